@@ -32,6 +32,10 @@ type harnessSpec struct {
 	Bounds      string   `json:"bounds"`
 	Replay      string   `json:"replay"` // kind of extra end-to-end replay
 	NoDiff      bool     `json:"no_diff"`
+	ReplayPad   *struct {
+		Param  string `json:"param"`
+		Values []int  `json:"values"`
+	} `json:"replay_pad"`
 }
 
 type knownFinding struct {
@@ -440,6 +444,7 @@ func runNative(lr *loadResult, reports []*harnessReport, tier string, seed int64
 			diff *diffCase
 		}
 		refs := map[string]ref{}
+		padOf := map[string]string{}
 		for _, rep := range reps {
 			ts := rep.Spec.Quick
 			if tier == "thorough" && (rep.Spec.Thorough.MaxPaths != 0 || rep.Spec.Thorough.Params != nil) {
@@ -449,6 +454,19 @@ func runNative(lr *loadResult, reports []*harnessReport, tier string, seed int64
 				id := fmt.Sprintf("%s-%s-%d", rep.Spec.Func, kind, len(cases))
 				cases = append(cases, nativeCase{ID: id, Harness: rep.Spec.Func, Inputs: v.Model, Params: ts.Params})
 				refs[id] = ref{rep: rep, v: v, kind: kind}
+				if rep.Spec.ReplayPad != nil && v.EnvChoice {
+					// padded variants: let the real (unstable) sort show what its contract allows
+					for _, pv := range rep.Spec.ReplayPad.Values {
+						pp := map[string]int{}
+						for k, x := range ts.Params {
+							pp[k] = x
+						}
+						pp[rep.Spec.ReplayPad.Param] = pv
+						pid := fmt.Sprintf("%s+pad%d", id, pv)
+						cases = append(cases, nativeCase{ID: pid, Harness: rep.Spec.Func, Inputs: v.Model, Params: pp})
+						padOf[pid] = id
+					}
+				}
 			}
 			for _, v := range rep.Res.Violations {
 				add(v, "violation")
@@ -483,6 +501,15 @@ func runNative(lr *loadResult, reports []*harnessReport, tier string, seed int64
 			case "violation", "known":
 				r.rep.ReplayRuns++
 				ok := o != nil && contains(o.Failed, r.v.Clause)
+				if !ok {
+					for pid, base := range padOf {
+						if base == id && outs[pid] != nil && contains(outs[pid].Failed, r.v.Clause) {
+							ok = true
+							o = outs[pid]
+							r.v.Extra = map[string]string{"reproduced_with": pid}
+						}
+					}
+				}
 				if o == nil {
 					r.v.Native = "no outcome"
 				} else {
